@@ -57,6 +57,14 @@ Lemma K_tables : forall x,
   ld_exp_table x = x /\ ld_mc_table_e x = x /\ ld_mc_table_m x = x /\
   tidy_exp_table x = x /\ tidy_mc_table x = x /\ fmt_exp_table x = x /\ fmt_mc_table x = x.
 Proof. repeat split; reflexivity. Qed.
+(* merge order of the stage tables at all three sites: configuration first, the
+   dataset's table overrides it *)
+Lemma K_merge_order : forall c d,
+  ld_merge c d = [c; d] /\ lap_merge c d = [c; d] /\ fmt_merge c d = [c; d].
+Proof. repeat split; reflexivity. Qed.
+Lemma K_mode_default : mode_default_time = true.
+Proof. reflexivity. Qed.
+
 Lemma K_fmt : forall k ks n, fmt_missing k ks = negb (zmem k ks) /\
   fmt_exp_bad n = negb (n =? 0) /\ fmt_mc_bad n = negb (n =? 0).
 Proof. repeat split; reflexivity. Qed.
@@ -337,22 +345,22 @@ Qed.
 Definition cnt (bs : Z) (k fuel : nat) : Z :=
   Z.of_nat (length (filter (fun j => Z.of_nat j mod bs =? 0) (seq k fuel))).
 
-Lemma mem_loop_spec : forall f o bs l,
-  wf_file f -> bs <> 0 ->
+Lemma mem_loop_spec : forall f o bs l (disk : Z -> list (list Z)),
+  wf_file f -> bs <> 0 -> (forall k, disk k = f_rows f) ->
   (forall p, In p l -> In (fst p) (map fst (f_schema f))) ->
   forall fuel k opens,
   (k + fuel <= length (f_rows f))%nat ->
-  mem_loop fuel (Z.of_nat k) bs (f_rows f) (f_rows f) (fname_to_fidx (f_schema f))
+  mem_loop fuel (Z.of_nat k) bs disk (f_rows f) (fname_to_fidx (f_schema f))
            (mstate f o k l) opens
   = Ok (mstate f o (k + fuel) l, opens + cnt bs k fuel).
 Proof.
-  intros f o bs l Hwf Hbs Hin. induction fuel as [|fuel IH]; intros k opens Hle.
+  intros f o bs l disk Hwf Hbs Hd Hin. induction fuel as [|fuel IH]; intros k opens Hle.
   - cbn [mem_loop]. rewrite Nat.add_0_r. unfold cnt. cbn. rewrite Z.add_0_r. reflexivity.
   - cbn [mem_loop]. unfold mem_row_idx0.
     rewrite (py_get_nth (f_rows f) k []) by lia. cbn [bind].
     rewrite store_row_spec by (try assumption; lia). cbn [bind].
     destruct (bs =? 0) eqn:Eb; [apply Z.eqb_eq in Eb; contradiction|].
-    rewrite K_mem_reopen.
+    rewrite K_mem_reopen. rewrite Hd.
     replace (Z.of_nat k + 1) with (Z.of_nat (S k)) by lia.
     unfold cnt. cbn [seq filter].
     destruct (Z.of_nat k mod bs =? 0) eqn:Em.
@@ -375,19 +383,27 @@ Proof.
   intros o sch p H. unfold spec_kept in H. apply filter_In in H. apply in_map. apply H.
 Qed.
 
-Theorem load_mem_spec : forall bs f o,
-  wf_file f -> bs <> 0 ->
-  load_file_mem_bs bs f o = Ok (spec_load_file f o, spec_opens (zlen (f_rows f)) bs).
+(* the memory-efficient loader on a file whose content at every open is the same *)
+Theorem load_mem_ver_spec : forall bs f o (ver : Z -> list (list Z)),
+  wf_file f -> bs <> 0 -> (forall k, ver k = f_rows f) ->
+  load_file_mem_ver bs (f_schema f) ver o = Ok (spec_load_file f o, spec_opens (zlen (f_rows f)) bs).
 Proof.
-  intros bs f o Hwf Hbs. unfold load_file_mem_bs.
+  intros bs f o ver Hwf Hbs Hv. unfold load_file_mem_ver. rewrite (Hv 1).
   destruct K_mem_range as [Hlo Hhi]. rewrite Hlo, Hhi, Z.sub_0_r.
   rewrite mem_alloc_spec.
   replace (Z.to_nat (zlen (f_rows f))) with (length (f_rows f)) by (unfold zlen; rewrite Nat2Z.id; reflexivity).
   change 0 with (Z.of_nat 0).
-  rewrite (mem_loop_spec f o bs (spec_kept o (f_schema f)) Hwf Hbs (spec_kept_in o (f_schema f))
+  rewrite (mem_loop_spec f o bs (spec_kept o (f_schema f)) ver Hwf Hbs Hv (spec_kept_in o (f_schema f))
              (length (f_rows f)) O 1) by lia.
   cbn [bind fst snd plus]. rewrite freeze_full. cbn [bind].
   unfold spec_load_file, spec_opens, cnt, zlen. rewrite Nat2Z.id. reflexivity.
+Qed.
+
+Theorem load_mem_spec : forall bs f o,
+  wf_file f -> bs <> 0 ->
+  load_file_mem_bs bs f o = Ok (spec_load_file f o, spec_opens (zlen (f_rows f)) bs).
+Proof.
+  intros bs f o Hwf Hbs. unfold load_file_mem_bs. apply load_mem_ver_spec; try assumption. reflexivity.
 Qed.
 
 (* the two modes agree on every well-formed file, whatever the block size *)
